@@ -35,6 +35,8 @@ def phases(tier):
     return [
         {"name": "t2", "runs": 900 if q else 60000, "params": {"type": "t2", "big": not q}},
         {"name": "t1", "runs": 600 if q else 40000, "params": {"type": "t1", "big": not q}},
+        {"name": "t3", "runs": 500 if q else 40000, "params": {"type": "t3", "big": not q}},
+        {"name": "t4", "runs": 500 if q else 40000, "params": {"type": "t4", "big": not q}},
     ]
 
 
@@ -52,13 +54,18 @@ def _cut_points(sim, n, boundaries):
 def run_one(sim, params):
     nfc = core.import_nfc()
     import nfc.tag
-    case = gen.GENERATORS[params["type"]](sim, big=params.get("big", False))
+    kw = {"atomic_nlen": True} if params["type"] == "t4" else {}
+    case = gen.GENERATORS[params["type"]](sim, big=params.get("big", False), **kw)
     cap = case.true_capacity()
     # ---- precondition + reported capacity ------------------------------------------
     with case.world(nfc) as w:
-        tag = w.discover()
-        ndef = tag.ndef if tag is not None else None
-        if ndef is None or not ndef.is_writeable or ndef.octets != case.old:
+        try:
+            tag = w.discover()
+            ndef = tag.ndef if tag is not None else None
+            pre_ok = ndef is not None and ndef.is_writeable and ndef.octets == case.old
+        except Exception:
+            pre_ok = False
+        if not pre_ok:
             sim.probe("precondition.failed(C01 territory)")
             return
         rcap = ndef.capacity
@@ -126,7 +133,7 @@ def run_one(sim, params):
                                 "fresh reader raised %r after cut k=%d/%d" % (e, k, n), {"cut": k})
             mem = bytes(w.silicon.mem)
         phase = sum(1 for b in boundaries if b < k) if 0 < k else -1
-        sim.cls(params["type"], case.layout.ndef_offset % 8 if hasattr(case, "layout") else 0,
+        sim.cls(params["type"], case.layout.ndef_offset % 8 if hasattr(case, "layout") else (getattr(case, 'nbw', 0) or getattr(case, 'mlc', 0)),
                 case.old_class, nc, fmt, phase if k < n else 99, seen)
         sim.log("cut", k, n, outcome, seen)
         if seen == "MIXTURE":
